@@ -8,7 +8,8 @@
  *       the image.  mode 0 (default): zck_init_read; 1: zck_init_adv_read +
  *       zck_read_lead + zck_read_header; 2: as 1 with the header pinned to the
  *       given (genuine) hash type and digest string first; 3: the pins are set
- *       AFTER zck_read_lead (setter results ignored, error cleared).  Output:
+ *       AFTER zck_read_lead (setter results ignored, error cleared); 4: as 1, but every failing step is followed by
+ *       zck_clear_error and repeated (up to three attempts each).  Output:
  *       "S <fileidx> <pos> <val> <mode>" for each open that SUCCEEDED, then
  *       "XEND <fileidx> <opens> <successes>".
  *   P <id> <fileidx> <patches|-> <ops...>
@@ -95,6 +96,12 @@ static int try_open_mode(int mode, int htype, const char *hexdigest) {
             zck_clear_error(z);
             r = zck_read_header(z);
         }
+    } else if(mode == 4) {
+        /* a caller that does not give up at the first failure: clear the error and ask again (each step up to three times) */
+        int l = 0, h = 0;
+        for(int k = 0; r && k < 3 && !l; k++) { l = zck_read_lead(z); if(!l) zck_clear_error(z); }
+        for(int k = 0; r && l && k < 3 && !h; k++) { h = zck_read_header(z); if(!h) zck_clear_error(z); }
+        r = r && l && h;
     } else {
         r = r && zck_read_lead(z) && zck_read_header(z);
     }
